@@ -332,6 +332,9 @@ func mfRunDescCase(c mfCase) mfLine {
 	if c.Format == "config" {
 		return mfRunConfigCase(c)
 	}
+	if c.Format == "pool" {
+		return mfRunPoolCase(c)
+	}
 	name, text, files := mfRenderDesc(c)
 	evs, info := mfDescPipeline(c.Format, name, text, files)
 	return mfLine{K: "case", C: &c, Evs: evs, Info: info}
